@@ -291,6 +291,7 @@ func main() {
 	for s := 0; s < streams; s++ {
 		genStream(r, im, do)
 	}
+	directedNil(r, im, do) // after the random streams (their stream stays what it was)
 }
 
 // directed: the streams every run contains, whatever the seed. An equivocating validator whose vote
@@ -331,6 +332,35 @@ func directed(r *vh.Run, im *impl, do func(string) string) {
 			r.Distinct(fmt.Sprintf("directed n=%d late=%v", n, late))
 			if res != "ok" {
 				r.Fail(vh.Failure{Class: "commit-from-majority-fails-verification", Detail: "an equivocator's vote for the majority block was admitted through a peer's +2/3 claim and is needed for the quorum: MakeCommit of the reported majority does not pass VerifyCommit", Ops: ops, Got: res, Want: "ok"})
+			}
+		}
+	}
+}
+
+// directedNil: precommits for nil justify no block. A round that failed left +2/3 genuine precommits
+// for nil behind; a peer offers them as the commit of a block whose id has NO header hash (a header
+// without validators hash does not hash) but a part-set header of its own choosing. They are votes for
+// nil, not for that block.
+func directedNil(r *vh.Run, im *impl, do func(string) string) {
+	for _, n := range []int{1, 4, 7} {
+		powers := make([]int64, n)
+		for i := range powers {
+			powers[i] = 1 + int64(i%2)
+		}
+		vs := im.setup(powers)
+		addr := func(i int) string { a, _ := im.vals.GetByIndex(i); return vh.Hex(a) }
+		newOp := fmt.Sprintf("new 5 0 2%s", vs)
+		do(newOp)
+		var slots []string
+		for i := 0; i < n; i++ {
+			slots = append(slots, fmt.Sprintf("%d,%s,5,0,2,-,0,-,%d.0", i, addr(i), i))
+		}
+		for _, bid := range []string{"- 1 bb", "- 3 cafe"} {
+			op := fmt.Sprintf("verifyc %s 5 %s", bid, strings.Join(slots, " "))
+			res := do(op)
+			r.Count("directed.nil-precommits-for-a-hashless-block-id." + res)
+			if res == "ok" {
+				r.Fail(vh.Failure{Class: "precommits-for-nil-justify-a-block", Detail: "VerifyCommit accepts genuine precommits for nil as the commit of a block id without header hash but with a part-set header: votes for nil justify no block", Ops: []string{newOp, op}, Got: res, Want: "an error"})
 			}
 		}
 	}
